@@ -200,8 +200,12 @@ def structural(ck, prop, tier):
             return
 
 
+# observation hook only (no scheduling points): the harness overwrites the payload of every buffer when it is recycled
+INSTR = {"files": {"buffer_manager.go": {"entry": ["bufferList.push"]}}}
+
+
 def harness(ck, prop, job):
-    g = gorun.run_harness('^TestVS_BytePipe$', HARNESS, None, inputs={'job': job}, timeout=3000)
+    g = gorun.run_harness('^TestVS_BytePipe$', HARNESS, INSTR, inputs={'job': job}, timeout=3000)
     if g.result is None:
         ck.inconc('harness produced no result (rc=%d): %s' % (g.rc, g.out[-1500:]))
         return None
